@@ -946,3 +946,28 @@ def run_clonesym(chk, F, rid="R-CLONESYM"):
                    sample="symbol mapping lambda decides on the result of resolve")
     if n < 1:
         raise AnalysisBroken("R-CLONESYM: the store of the looked-up symbol was not found")
+
+
+# ---------------------------------------------------------------------------------------------- R-DEEPCLONE
+def run_deepclone(chk, F, rid="R-DEEPCLONE"):
+    """`a deep clone shares no node with e`: every overload of clone_deeper builds each operand of the copy by a recursive
+    clone_deeper; the shallow clone() - which shares the operands with the original - is no shortcut for it (round 8: an
+    `if (from == to) return clone();` in clone_deeper(from, to) made later changes to the clone change the original)."""
+    from ..inline import strip
+    chk.rule(rid, "no overload of expression_t::clone_deeper returns (or builds its result from) the shallow clone() of the "
+                  "node, and each one recurses into clone_deeper for the operands")
+    fns = [f for f in F.fns("UTAP::expression_t::clone_deeper") if f.get("body") is not None]
+    if len(fns) < 3:
+        raise AnalysisBroken("clone_deeper overloads: %d found" % len(fns))
+    for fn0 in fns:
+        tag = "clone_deeper/%d" % len(fn0.get("params", []))
+        fn = inline_tail_delegate(fn0, F)
+        shallow = [c for c in calls(fn0["body"]) if c.get("name") == "clone" and c.get("cls") == "UTAP::expression_t" and
+                   (c.get("recv") is None or strip(c["recv"]).get("k") == "this")]
+        rec = any(c.get("name") == "clone_deeper" for c in calls(fn["body"]))
+        chk.ob(rid, tag, not shallow and rec,
+               "expression_t::%s %s: the operands of the result are the operands of the original, so a later change to either "
+               "is seen through the other" % (tag, "takes the shallow clone() of the node (line %s)" % shallow[0].get("l")
+                                              if shallow else "does not clone the operands recursively"),
+               "%s:%s" % (fn0["file"], (shallow[0].get("l") if shallow else fn0["line"])),
+               sample="%s copies every operand with clone_deeper" % tag)
